@@ -57,12 +57,12 @@ PROPS = {
     "C18": dict(modules=["bits"], assumptions=A_ENGINE, bounded=[]),
     "C01": dict(modules=["pibas", "pipack", "sse_bounded"], assumptions=A_SSE, bounded=[], partial=PARTIAL["C01"], runtime_checks=[["sse_bounded", "rt_c01_c02"]]),
     "C02": dict(modules=["pibas", "pipack", "sse_bounded"], assumptions=A_SSE, bounded=[], partial=PARTIAL["C02"], runtime_checks=[["sse_bounded", "rt_c01_c02"]]),
-    "C03": dict(modules=["pibas", "pipack", "structures_all", "sse_bounded"], assumptions=A_SSE, bounded=[], partial=PARTIAL["C03"], runtime_checks=[["sse_bounded", "rt_c03"]]),
-    "C04": dict(modules=["pibas", "pipack", "sse_bounded"], assumptions=A_SSE + ["A4/A2 (NOT decided): absence of chance substrings / collisions is probabilistic"], bounded=[],
+    "C03": dict(modules=["pibas", "pipack", "structures_all", "producers_all", "sse_bounded"], assumptions=A_SSE, bounded=[], partial=PARTIAL["C03"], runtime_checks=[["sse_bounded", "rt_c03"]]),
+    "C04": dict(modules=["pibas", "pipack", "producers_all", "sse_bounded"], assumptions=A_SSE + ["A4/A2 (NOT decided): absence of chance substrings / collisions is probabilistic"], bounded=[],
                 partial=PARTIAL["C04"], runtime_checks=[["sse_bounded", "rt_c04"]], prov_contracts=PROV_CONTRACTS),
     "C05": dict(modules=["pibas", "pipack", "sse_bounded"], assumptions=A_SSE, bounded=[], partial=PARTIAL["C05"], runtime_checks=[["sse_bounded", "rt_c05"]]),
     "C06": dict(modules=["pibas", "pipack", "sse_bounded"], assumptions=A_SSE, bounded=[], partial=PARTIAL["C06"], runtime_checks=[["sse_bounded", "rt_c06"]]),
-    "C07": dict(modules=["pibas", "pipack", "sse_bounded"], assumptions=A_SSE, bounded=[], partial=PARTIAL["C07"], runtime_checks=[["sse_bounded", "rt_c07"]], own_frames=OWN_FRAMES),
+    "C07": dict(modules=["pibas", "pipack", "producers_all", "sse_bounded"], assumptions=A_SSE, bounded=[], partial=PARTIAL["C07"], runtime_checks=[["sse_bounded", "rt_c07"]], own_frames=OWN_FRAMES),
     "C08": dict(modules=["pibas", "pipack", "configs_all", "sse_bounded"], assumptions=A_SSE, bounded=[], partial=PARTIAL["C08"], runtime_checks=[["sse_bounded", "rt_c08"]]),
     "C19": dict(modules=["persist", "persist_bounded"], assumptions=A_ENGINE + ["D2: ghost file system (pyvc/files.py): open/seek/read/write/close, os.path.exists, os.unlink, pickle.dump/load on a file object as documented; sparse writes zero-fill; buffering transparent", "P1: pickle round trip of the meta tuple", "B5: collections.abc.Sequence.__iter__ is the documented loop over __getitem__ until IndexError (restated as ghost code and verified)", "cidx_def: conservative inverse of the (proved injective) chunk-path function"], bounded=[],
                 partial=PARTIAL["C19"], runtime_checks=[["persist_bounded", "rt_c19"]]),
